@@ -957,6 +957,12 @@ class Interp:
             f = v.cls.find(nm)
             if f is not None:
                 return self.call(f, [v])
+        if isinstance(v, Obj) and v.tag == 'mat':
+            from . import matalg as MA_
+            if isinstance(op, ast.USub):
+                return MA_.wrap(-v.fields['m'], v.fields['kind'])
+            if isinstance(op, ast.UAdd):
+                return v
         if isinstance(op, ast.USub):
             return V.neg(v)
         if isinstance(op, ast.UAdd):
